@@ -219,6 +219,8 @@ class ImmutabilityGuard:
     def _relayout(x):
         if isinstance(x, np.ndarray) and x.ndim >= 2 and 1 < x.size <= 65536 and x.dtype.kind in 'biufc':
             return np.asfortranarray(x) if x.flags['C_CONTIGUOUS'] else np.ascontiguousarray(x)
+        if isinstance(x, np.ndarray) and x.ndim == 1 and 1 < x.size <= 65536 and x.dtype.kind in 'biufc':
+            return x[::-1].copy()[::-1]  # same values, negative stride (index lists, vectors)
         if hasattr(x, 'detach') and hasattr(x, 'is_contiguous') and getattr(x, 'ndim', 0) >= 2 and 1 < x.numel() <= 65536 and not x.requires_grad:
             if x.is_contiguous():
                 return x.transpose(-1, -2).contiguous().transpose(-1, -2)
